@@ -17,6 +17,7 @@ ASSUMPTIONS = ["affine model and textbook ECDSA in vf/model/secp.py",
                "tiny-curve substitution replaces module attributes at run time; tiny primes are "
                "3 mod 4 because the library's square root is x^((P+1)/4)"]
 ENGINE = "exhaustive enumeration on substituted tiny curves + hypothesis on the real curve"
+TECHNIQUE = ("exhaustive enumeration of (v, r, s, z) on substituted tiny curves + structured property-based testing (Hypothesis) on the real curve against an independent recovery model")
 REQUIRED_LABELS = {t: ["B:accept", "B:raise:v", "B:raise:r=0modN", "B:raise:s=0modN",
                        "B:raise:not_x", "B:accept:r>=N", "B:accept:high_s", "A:accept", "A:identity",
                        "A:raise"] for t in ("quick", "thorough")}
